@@ -16,6 +16,7 @@ import Drivers.Metric
 import Drivers.Par
 import Drivers.Interp
 import Drivers.Gradation
+import Drivers.Subdiv
 
 /-! `refdrv <driver> [args]` : dispatch to a line-protocol driver. One match arm per driver, on one line. -/
 
@@ -37,6 +38,7 @@ def main (args : List String) : IO UInt32 := do
   | "par" :: rest => Drivers.Par.run rest
   | "interp" :: rest => Drivers.Interp.run rest
   | "gradation" :: rest => Drivers.Gradation.run rest
+  | "subdiv" :: rest => Drivers.Subdiv.run rest
   | _ =>
     IO.eprintln s!"refdrv: unknown driver {args}"
     return 2
